@@ -259,6 +259,7 @@ def run_scenario(scenario, _unused):
     cffi.FFI.compile = compile_
 
     slots = {}  # slot -> (request, objs, ns)
+    straddle = {}  # slot -> the request's own constants / meshes straddle a power of ten
     exposed = {}  # slot -> numpy print options were non-default when its arrays could be str()'d
     np_default = dict(np.get_printoptions())
     np_state = {"nondefault": False}
@@ -294,6 +295,26 @@ def run_scenario(scenario, _unused):
                 keep.append(ufl.Index())
             else:
                 raise ValueError(kind)
+
+    def counter_straddle(objs, kind):
+        """True if the request's own Constants, or its own meshes, carry global counter values
+        with different numbers of digits (9|10, 99|100): UFL orders such terminals inside sums
+        and products by repr(), i.e. by the *string* of the counter."""
+        import copy as _copy
+
+        try:
+            consts, meshes = [], []
+            for o in objs:
+                if kind == "forms":
+                    consts += [c.count() for c in o.constants()]
+                    meshes += [d.ufl_id() for d in o.ufl_domains()]
+                else:
+                    e = o[0]
+                    consts += [c.count() for c in ufl.algorithms.analysis.extract_constants(e)]
+                    meshes += [d.ufl_id() for d in ufl.domain.extract_domains(e)]
+            return any(len({len(str(c)) for c in cs}) > 1 for cs in (consts, meshes))
+        except Exception:
+            return False
 
     def state_stamp():
         return {"mesh_id": ufl.Mesh._ufl_global_id, "objid": id(object())}
@@ -357,6 +378,7 @@ def run_scenario(scenario, _unused):
             objs, ns = req.build(between)
             slots[slot] = (req, objs, ns)
             exposed[slot] = np_state["nondefault"]
+            straddle[slot] = counter_straddle(objs, req.kind)
         elif kind == "compile":
             slot, lang = op[1], op[2]
             req, objs, ns = slots[slot]
@@ -370,7 +392,9 @@ def run_scenario(scenario, _unused):
             )
             entry["o"] = record(
                 "text", req.name, {"lang": lang or "C", "suffixes": list(suffixes),
-                                   "np_print_exposed": bool(exposed.get(slot))},
+                                   "np_print_exposed": bool(exposed.get(slot)),
+                 "counter_straddle": bool(straddle.get(slot)),
+                                   "counter_straddle": bool(straddle.get(slot))},
                 {f"part{i}": c for i, c in enumerate(code)},
             )
         elif kind == "share_options":
@@ -414,6 +438,7 @@ def run_scenario(scenario, _unused):
                 entry["o_multi"].append(record(
                     "text", slots[sl][0].name, {"lang": lang or "C", "suffixes": list(suffixes),
                                                "np_print_exposed": bool(exposed.get(sl)),
+                                               "counter_straddle": bool(straddle.get(sl)),
                                                "threaded": True},
                     {f"part{i}": c for i, c in enumerate(code)}))
         elif kind == "jitname":
@@ -452,6 +477,7 @@ def run_scenario(scenario, _unused):
                 "jit", req.name,
                 {"module_name": seen.get("module_name"), "object_names": names, "raised": raised,
                  "np_print_exposed": bool(exposed.get(slot)),
+                 "counter_straddle": bool(straddle.get(slot)),
                  "compile_args": seen.get("kw", {}).get("extra_compile_args"),
                  "compile_env": compile_env},
                 {"cdef": seen.get("cdef", ""), "source": seen.get("source", "")},
@@ -464,6 +490,17 @@ def run_scenario(scenario, _unused):
             with open(fn, "w") as f:
                 f.write(req.source())
                 f.write("forms = objs\n" if req.kind == "forms" else "expressions = objs\n")
+            import copy as _copy
+
+            src = req.source()
+            try:
+                c0 = next(_copy.copy(ufl.Constant._counter)) if ufl.Constant._counter is not None else 0
+            except Exception:
+                c0 = 0
+            m0 = ufl.Mesh._ufl_global_id
+            cli_straddle = any(
+                n >= 2 and len({len(str(x)) for x in range(a, a + n)}) > 1
+                for a, n in ((c0, src.count("ufl.Constant(")), (m0, src.count("ufl.Mesh("))))
             argv = ["-d", "."]
             for k, v in sorted(req.options.items()):
                 if isinstance(v, bool):
@@ -485,13 +522,15 @@ def run_scenario(scenario, _unused):
                 if name.startswith("req") and name != "req.py":
                     texts["file_" + name.replace(".", "_")] = open(os.path.join(d, name)).read()
             entry["o"] = record("cli", req.name, {"lang": lang or "C",
-                                                  "np_print_exposed": np_state["nondefault"]}, texts)
+                                                  "np_print_exposed": np_state["nondefault"],
+                                                  "counter_straddle": bool(cli_straddle)}, texts)
         elif kind == "reform":
             # a Form rebuilt from the integrals of an already compiled one
             _, slot, newslot = op
             req, objs, ns = slots[slot]
             slots[newslot] = (req, [ufl.Form(f.integrals()) for f in objs], ns)
             exposed[newslot] = exposed.get(slot, False) or np_state["nondefault"]
+            straddle[newslot] = straddle.get(slot, False)
         elif kind == "options":
             what = op[1]
             if what == "verbosity":
